@@ -21,7 +21,7 @@ ASSUMPTIONS = [
 ]
 COMPONENTS = {"real": ["lib/srfi/69/hash.c (cell lookup, regrow, delete)", "interface.scm", "equal?/eqv?/hash in sexp.c", "Scheme callbacks via nested sexp_apply", "collector"],
               "stub": ["collection schedule", "heap placement (junk prefix)", "slice lengths for the callback-preemption family"]}
-BUDGET = {"quick": {"seconds": 50, "cases": 6000}, "thorough": {"seconds": 900, "cases": 400000}}
+BUDGET = {"quick": {"seconds": 50, "cases": 6000, "min_cases": 150}, "thorough": {"seconds": 900, "cases": 400000}}
 IMPORTS = ["(srfi 69)", "(srfi 18)"]
 CONFIGS = {
     "sim": {"variant": "sim", "imports": IMPORTS, "timeout_ms": 60000},
